@@ -121,6 +121,17 @@ def driven_asyncore_class():
             self._sock.pending += data
             while self._sock.pending and not self._sock.closed:
                 self.handle_read_event()
+        def h_data_as_the_loop_does(self, data):
+            # like h_data, with asyncore.read()'s handling of what a handler raises: anything but an exit request goes to
+            # handle_error()
+            self._sock.pending += data
+            while self._sock.pending and not self._sock.closed:
+                try:
+                    self.handle_read_event()
+                except (KeyboardInterrupt, SystemExit):
+                    raise
+                except Exception:
+                    self.handle_error()
     return Driven, DA
 
 
